@@ -55,7 +55,7 @@ def run_dm(ctx):
         step = 1 if (not ctx.quick or len(allpos) <= 500) else 5
         for (b, k) in allpos[rng.randrange(step)::step]:          # every codeword position of every block, single fault
             sets.append(mkset(m, [(b, k, rng.choice([1, 128, 255, rng.randint(1, 255)]))]))
-        for style in range(3 if ctx.quick else 8):                 # floor(ec/2) faults in every block at once
+        for style in range((3 if cap > 100 else 10) if ctx.quick else 12):   # floor(ec/2) faults in every block at once
             sets.append(mkset(m, full(rng, m, style % 3)))
         sets.append(mkset(m, full(rng, m, 2, extra=rng.randint(1, len(m["blocks"])))))   # one beyond capacity: error or right text
         ev.append(dict(op="dmg", text=text, utf=0, shape=shape, mn=[w, h], mx=[w, h], size=i, sets=sets, tag="blocks"))
